@@ -309,10 +309,9 @@ class DirectCalendar(IWorkCalendar):
             self,
             units: Optional[Dict[datetime, float]] = None
     ):
+        self.__units = {}
         if units is not None:
-            self.__units = {_day_start(k): v for k, v in units.items()}
-        else:
-            self.__units = {}
+            self.set_units(units)
 
     def get_available_units(self, date: datetime) -> Optional[float]:
         key = _day_start(date)
@@ -322,7 +321,10 @@ class DirectCalendar(IWorkCalendar):
             return None
 
     def set_units(self, units: Dict[datetime, float]):
-        self.__units = self.__units | units
+        for v in units.values():
+            if v is not None and v < 0:
+                raise RuntimeError("Value must be >= 0")
+        self.__units = self.__units | {_day_start(k): v for k, v in units.items()}
 
     @property
     def dates(self):
